@@ -9,6 +9,20 @@ HERE = os.path.dirname(os.path.dirname(os.path.abspath(__file__)))
 sys.path.insert(0, HERE)
 
 CLAIMED = {
+    'C07': dict(
+        category='other',
+        text='Conjunction structure of check_chain by branch-polarity analysis on all paths (DROP is returned only '
+             'through the DROP edge of a filter-result test, every other exit returns PASS, a DROP is final, the '
+             'not-found edge of the name lookup reaches no filter call), at most one filter call per tokenised element '
+             'with name/argument derived from that element, purity of every registered filter and everything it '
+             'reaches (no static-storage write, no configuration write, argument only read), silence of the DROP '
+             'outcome in the action (nothing that may emit before or after the decision). Purity + conjunction give '
+             'order/repetition independence for every chain.',
+        design_ref='DESIGN.md §5 C07',
+        note='Not decided: tokenisation of the chain text (empty elements, separators) as a byte-level algorithm; the '
+             'filters\' own verdicts are C14/C15.',
+        technique='static analysis: branch-polarity path analysis + purity (static-write / pointer-derivation) analysis '
+                  '+ call-graph reachability'),
     'C09': dict(
         category='other',
         text='Lockset discipline on all CFG paths: the held/free state of the repository mutex is propagated through every '
